@@ -4,20 +4,22 @@
 // to a harness-readable log (kind, name, args, global simrt.Seq stamp, calling
 // simulated goroutine), then an optional harness hook runs in the calling
 // goroutine (it may yield or sleep: "creating a process takes time"), and only
-// then the real os/exec function is called and its result returned unchanged.
+// then the real os/exec function is called and its result returned.
 //
-// Safety net: while a simulation is running, a returned *exec.Cmd that would
-// actually resolve to an executable gets its Err field set, so Start fails
-// without forking. A real child (and its real pipes) must never be waited on
-// inside a synctest bubble: a goroutine blocked in a real syscall is not
-// durably blocked and stalls the fake clock. Worlds use command names that do
-// not exist, so the net is not expected to trigger (Suppressed counts it).
-// Outside a simulation the package is a transparent pass-through.
+// Safety net: while a simulation is running, a returned *exec.Cmd whose Start
+// would fork (its Err is nil and it has a Path) gets its Err field set, so
+// Start fails without forking (see disarm). A real child and its real pipes
+// must never be waited on inside a synctest bubble: a goroutine blocked in a
+// real syscall is not durably blocked and stalls the fake clock. Worlds use
+// command names that do not exist; a name that does exist is counted by
+// Suppressed so the world can report the broken assumption. Outside a
+// simulation the package is a transparent pass-through.
 package simexec
 
 import (
 	"context"
 	"errors"
+	"os"
 	"os/exec"
 	"sync"
 
@@ -101,14 +103,26 @@ func record(kind, name string, args []string) {
 	}
 }
 
+// disarm makes sure Start cannot fork while a simulation runs. A bare name that
+// LookPath did not find already carries cmd.Err and is left alone. A name with
+// a path separator is not looked up by os/exec (Start would fork and fail in
+// execve): if the file does not exist Start is made to fail with the same
+// "not found" error without forking; if it does exist the command would really
+// run, which is counted (Suppressed) so that the world can treat it as a
+// broken assumption.
 func disarm(cmd *exec.Cmd) *exec.Cmd {
-	if simrt.Active() && cmd != nil && cmd.Err == nil {
-		cmd.Err = ErrSuppressed
-		mu.Lock()
-		suppressed++
-		mu.Unlock()
-		simrt.Probe("simexec_real_start_suppressed")
+	if !simrt.Active() || cmd == nil || cmd.Err != nil || cmd.Path == "" {
+		return cmd
 	}
+	if _, err := os.Stat(cmd.Path); err != nil {
+		cmd.Err = &exec.Error{Name: cmd.Path, Err: exec.ErrNotFound}
+		return cmd
+	}
+	cmd.Err = ErrSuppressed
+	mu.Lock()
+	suppressed++
+	mu.Unlock()
+	simrt.Probe("simexec_real_start_suppressed")
 	return cmd
 }
 
